@@ -669,6 +669,26 @@ fn exotic() -> Vec<Vec<Stmt>> {
         v.push(vec![Stmt::Function { name: Name::Proper(vec!["Zed".into(), "Yod".into()]), params: params.clone(), body: vec![Stmt::Return(Expr::Prim(x()))] }, say(1.0)]);
         v.push(vec![Stmt::Function { name: Name::Simple("f".into()), params, body: vec![] }, say(1.0)]);
     }
+    // every block slot empty / one statement / two statements / a nested block statement, in every
+    // combination, for if (then x else incl. absent), while, until, function
+    let fill = |k: usize, tag: f64| -> Vec<Stmt> {
+        match k {
+            0 => vec![],
+            1 => vec![say(tag)],
+            2 => vec![say(tag), say(tag + 0.5)],
+            3 => vec![Stmt::If { cond: e(tag), then: vec![], els: Some(vec![say(tag + 0.25)]) }],
+            _ => vec![Stmt::While { cond: e(tag), body: vec![Stmt::If { cond: e(tag), then: vec![say(tag + 0.1)], els: None }] }, say(tag + 0.75)],
+        }
+    };
+    for a in 0..5usize {
+        for b in 0..6usize {
+            let els = if b == 5 { None } else { Some(fill(b, 20.0)) };
+            v.push(vec![say(1.0), Stmt::If { cond: e(2.0), then: fill(a, 10.0), els }, say(3.0)]);
+        }
+        v.push(vec![Stmt::While { cond: e(2.0), body: fill(a, 10.0) }, say(3.0)]);
+        v.push(vec![Stmt::Until { cond: e(2.0), body: fill(a, 10.0) }, say(3.0)]);
+        v.push(vec![Stmt::Function { name: Name::Simple("f".into()), params: vec![Name::Simple("p".into())], body: fill(a, 10.0) }, say(3.0)]);
+    }
     // nesting depth 2 with every block slot used
     v.push(vec![Stmt::Function {
         name: Name::Simple("f".into()),
